@@ -10,7 +10,7 @@ From LV Require Import model.VecIndex model.Abft model.AbftRun spec.ElectionSpec
 Import ListNotations.
 Local Open Scope N_scope.
 
-Definition nx_ae (e : fev) : aevent := to_aevent (fun _ => 0) ex_vals e.
+Definition nx_ae (e : fev) : aevent := to_aevent 1 (fun _ => 0) ex_vals e.
 (* event 1010 with the claimed frame 4 instead of 1, under another id *)
 Definition nx_wrong : aevent := nx_ae (mkev 6010 3 1 4 [1007; 1009; 1004]).
 (* a speculative event of validator 0 on top of its event 1005 *)
